@@ -350,6 +350,7 @@ def _fix_packet(program):
 
 _TIER = None
 _UNI = None
+_OPTPASS = bool(__import__("os").environ.get("VERIF_OPTPASS"))
 
 
 def _shard(indices):
@@ -393,7 +394,7 @@ def _shard(indices):
             if rejected(program_tree(p, unit)) is None:
                 report(f"accepted:{label}", f"{info.host} [{info.ident}] edited by '{label}' ({why}) is accepted by the generator\n{unit.xml()}",
                        {"tier": _TIER, "index": i, "edit": n_edit, "label": label})
-            elif info.ident.startswith("corpus:") or i % 40 == 0:
+            elif not _OPTPASS and ((info.ident.startswith("corpus:") and n_edit % 8 == 0) or i % 200 == 0):
                 counts["evaluations"] += 1
                 counts["reused_generator_runs"] += 1
                 if rejected_by_reused_generator(program_tree(p), program_tree(p, unit)) is False:
@@ -402,6 +403,8 @@ def _shard(indices):
             elif len(samples) < 1:
                 samples.append({"base": info.ident, "edit": label, "edited": unit.xml()})
         if _wants_tree_edits(info, i):
+            reuse_done = counts["tree_reuse_programs"] >= 1
+            counts["tree_reuse_programs"] += 1
             for n_edit, (label, files, raw) in enumerate(tree_edits(p)):
                 counts["evaluations"] += 1
                 counts["tree_edits"] += 1
@@ -409,6 +412,8 @@ def _shard(indices):
                     report(f"accepted:{label}", f"{info.host} [{info.ident}] with tree edit '{label}' is accepted by the generator",
                            {"tier": _TIER, "index": i, "tree_edit": n_edit, "label": label})
                     continue
+                if reuse_done:
+                    continue  # tree edits do not depend on the body: one program per shard takes them through a reused object
                 counts["evaluations"] += 1
                 counts["reused_generator_runs"] += 1
                 if rejected_by_reused_generator(program_tree(p), files, raw) is False:
@@ -421,6 +426,9 @@ def _wants_edits(info, i):
     """quick: corpus, every body of cost <= 1 (all hosts) and every tenth other program; thorough: all."""
     if _TIER != "quick":
         return True
+    if _OPTPASS:
+        # the -OO repetition of the quick tier (mc/cli.py) edits the corpus and every 40th program only
+        return info.ident.startswith("corpus:") or i % 40 == 0
     return info.ident.startswith("corpus:") or info.ident.count(";") == 0 or i % 10 == 0
 
 
@@ -469,7 +477,7 @@ def run(tier, seed):
         "rule": "(i) every body of the tier grammar that M9 classifies invalid; (ii) for every valid program every unit-level edit "
         "of the catalogue at every node / insertion site (deduplicated by edited XML), judged when M9 classifies the edited "
         "unit invalid; tree-level edits on corpus programs and every 120th (quick) / 40th (thorough) program; each generator run on a distinct "
-        "ill-formed tree is one case; every tree edit (and the unit edits of corpus programs and every 40th program) is also put to a generator OBJECT that has just generated the unedited tree (generate -> edit the files -> generate again); plus reuse pairs: 40 (valid tree, ill-formed tree) pairs in which the second tree breaks a type the first one defines validly (enum value / underlying type / ordinal, removed or self-containing struct, packet family / action removed from its enum), put to a fresh and to a reused generator object",
+        "ill-formed tree is one case; the tree edits of one program per shard (and every 8th unit edit of corpus programs, all unit edits of every 200th program) are also put to a generator OBJECT that has just generated the unedited tree (generate -> edit the files -> generate again); plus reuse pairs: 40 (valid tree, ill-formed tree) pairs in which the second tree breaks a type the first one defines validly (enum value / underlying type / ordinal, removed or self-containing struct, packet family / action removed from its enum), put to a fresh and to a reused generator object",
         "samples": samples[:3],
     }
     return {"coverage": coverage, "violations": out}
